@@ -124,10 +124,16 @@ impl IntoSignedNum for i32 {
             Binary => panic!("signed binary numbers are not supported"),
         };
 
+        // the zero of the same encoding
+        let zero = match encoding {
+            Scott => abs!(2, Var(2)),
+            _ => abs!(2, Var(1)),
+        };
+
         if self > 0 {
-            tuple!(numeral, abs!(2, Var(1)))
+            tuple!(numeral, zero)
         } else {
-            tuple!(abs!(2, Var(1)), numeral)
+            tuple!(zero, numeral)
         }
     }
 }
